@@ -346,6 +346,10 @@ var c06LeafList = func() []c06Leaf {
 	l = append(l, c06Leaf{"YM", "乙"}) // 以n（加：1）得到乙
 	l = append(l, c06Leaf{"A", "取"})  // assign to a method name
 	l = append(l, c06Leaf{"A", "型"})  // assign to a type name
+	// a definition written inside a block: a method named like a variable, a type named like one.
+	// Directly in a program / method body it is declared (read-only) before the body's statements
+	// run; inside a branch or loop block it declares nothing, in that block or any other
+	l = append(l, c06Leaf{"F", "乙"}, c06Leaf{"T", "甲"})
 	return l
 }()
 
@@ -451,6 +455,10 @@ func (b *c06Builder) stmt(n *c06Node) []zn.Stmt {
 			return []zn.Stmt{c06Show(zn.Str{Val: l.name}, zn.Var{Name: l.name})}
 		case "Y":
 			return []zn.Stmt{zn.ExprStmt{E: zn.Call{Name: "取", Args: []zn.Expr{b.num()}, Yield: l.name}}}
+		case "F":
+			return []zn.Stmt{zn.Func{Name: l.name, Body: []zn.Stmt{zn.Return{Val: zn.Num{Lit: "1"}}}}}
+		case "T":
+			return []zn.Stmt{zn.Class{Name: l.name, Props: []zn.Prop{{Name: "P", Val: zn.Num{Lit: "1"}}}}}
 		case "YM":
 			return []zn.Stmt{zn.ExprStmt{E: zn.MCall{Root: b.num(), Chain: []zn.Call{{Name: "加", Args: []zn.Expr{zn.Num{Lit: "0"}}}}, Yield: l.name}}}
 		}
